@@ -4,6 +4,12 @@ from pyvc.templates import TemplateUnit
 
 TS_GHOST = {'TokenStore': {'g_off': 'IARR', 'g_view': 'IARR', 'g_vlen': 'INT', 'g_boff': 'IARR'}}
 
+# paths that are dead on the reference tree for a stated reason; any OTHER unreachable path makes the obligations on it vacuous and is reported
+EXPECTED_UNREACHABLE = {
+    'l0.structure:TokenStore._update_block#SMOKE-path3',       # the re-index guard after rebuild(): indexes are always fresh since fix c7e0fd9
+    'l1.tokens:Position.__iadd__#SMOKE-path0',                 # `return NotImplemented`: the contract restricts `other` to Position
+}
+
 UNITS = [
     Unit('l0.observers', ['token_store.py'], 'l0_token_store.py',
          [(None, '_check_store_handle'), ('TokenStore', 'get_index'), ('TokenStore', 'get_next'), ('TokenStore', 'get_prev'), ('TokenStore', 'get_first'),
@@ -30,7 +36,7 @@ UNITS = [
          note='parse/fmt/bc_* codecs are uninterpreted: the setters are verified for every codec; concrete codecs are checked under C12'),
     Unit('l3.views', ['models/internal/value_properties.py'], 'l3_views.py',
          [('_RepeatedValueWrapperUpdateHandler', 'handle_splice')],
-         lemmas=['rank_nonneg', 'rank_mono', 'rank_prefix', 'rank_shift', 'rank_prefix_all', 'rank_shift_all', 'rank_lt_all'],
+         lemmas=['rank_nonneg', 'rank_mono', 'rank_prefix', 'rank_prefix_all', 'rank_shift_all', 'rank_lt_all'],
          props=['C10', 'C03', 'C06'], stubs=['l2_abstract.py'], typevars={'_M': 'RawModel', '_V': 'object', '_U': 'RawModel'},
          ghost={'_RepeatedValueWrapperUpdateHandler': {'g_a0': 'IARR', 'g_n0': 'INT', 'g_a1': 'IARR', 'g_n1': 'INT'}}, builtins=['bisect.bisect_left'],
          note='the raw list before/after the splice is ghost state (g_a0,g_n0 / g_a1,g_n1); that a1 == a0[:l] ++ values ++ a0[r:] is the notification postcondition of the raw wrapper (L2)'),
